@@ -123,7 +123,7 @@ def _fresh_interpreter(ctx, cases):
         for sp, _, _ in cases:
             f.write(json.dumps(sp) + "\n")
     env = dict(os.environ, PYTHONHASHSEED="12345")
-    subprocess.run([sys.executable, "-c", _CHILD % "/repo", fin, fout], check=True, env=env, cwd=ctx.work)
+    subprocess.run([sys.executable, "-c", _CHILD % os.environ.get("VERIF_REPO", "/repo"), fin, fout], check=True, env=env, cwd=ctx.work)
     for (sp, want, canon), (a, b) in zip(cases, json.load(open(fout))):
         if a != want or b != want:
             ctx.violation("fresh-session:%s" % shape(sp), "fresh interpreter (other PYTHONHASHSEED) computes %s / %s after a JSON round trip, expected %s for %r" % (a, b, want, sp),
